@@ -40,3 +40,9 @@ Theorem C12_levels_keep_basis : forall (ls : list ((asg -> mat2) * (asg -> C) * 
   UcgPreserve.cols_ok k ls b -> levels k ls (UcgPreserve.bs s b) = UcgPreserve.bs (s * UcgPreserve.pfac k ls b)%C b.
 Proof. exact UcgPreserve.levels_keep_basis. Qed.
 Print Assumptions C12_levels_keep_basis.
+
+(* the collected factor is a phase: modulus one when every carried phase and every diagonal entry met has modulus one *)
+Theorem C12_preserve_factor_unit : forall (ls : list ((asg -> mat2) * (asg -> C) * state)) (k : nat) (b : asg),
+  UcgPreserve.unit_ok k ls b -> Cmod (UcgPreserve.pfac k ls b) = 1%R.
+Proof. exact UcgPreserve.pfac_unit. Qed.
+Print Assumptions C12_preserve_factor_unit.
